@@ -54,7 +54,9 @@ Qed.
 Lemma nc_inserter_fn st tos : forall j view, nc (inserter_fn st tos j view).
 Proof.
   induction tos as [|t tl IH]; intros j view; cbn [inserter_fn]; [apply nc_ret|].
-  destruct (negb _); [apply IH|]. apply nc_bind; [apply nc_get_w|]. intros w. apply nc_bind; [apply nc_emit|]. intros _.
+  destruct (negb _); [apply IH|]. apply nc_bind; [apply nc_get_w|]. intros w.
+  destruct (to_dur t =? -2); [apply nc_bind; [apply nc_emit|intros _; apply nc_ret]|].
+  apply nc_bind; [apply nc_emit|]. intros _.
   destruct (if to_dur t <? 0 then None else Some (w_now w + to_dur t)); [|apply IH].
   apply nc_bind; [apply nc_catch; unfold p_tcreate; apply nc_prim_ret; reflexivity|]. intros [|]; [apply IH|apply nc_ret].
 Qed.
@@ -137,7 +139,10 @@ Lemma inserter_keeps_run st tos : forall j, keeps_run (inserter_fn st tos j).
 Proof.
   induction tos as [|t tl IH]; intros j view s obj' oc ctl s' H; cbn [inserter_fn] in H.
   - unfold ret in H. inversion H. reflexivity.
-  - destruct (negb _); [eapply IH; eauto|]. unfold bind at 1, get_w in H. cbn [fst snd] in H. unfold bind at 1 in H.
+  - destruct (negb _); [eapply IH; eauto|]. unfold bind at 1, get_w in H. cbn [fst snd] in H.
+    destruct (to_dur t =? -2).
+    { unfold bind at 1 in H. destruct (emit _ s) as [[[]|er] s1]; [|inversion H]. unfold ret in H. inversion H. reflexivity. }
+    unfold bind at 1 in H.
     destruct (emit _ s) as [[[]|er] s1]; [|inversion H].
     destruct (if to_dur t <? 0 then None else Some (w_now (o_w s) + to_dur t)); [|eapply IH; eauto].
     unfold bind at 1 in H. destruct (catch _ s1) as [[[uu|ee]|er] s2]; try (inversion H; fail).
